@@ -79,6 +79,27 @@ impl vstd::std_specs::ops::NegSpecImpl for Rational {
 impl core::ops::Neg for Rational { type Output = Rational;
     #[verifier::external_body] fn neg(self) -> (r: Rational) ensures r == q_neg(self) { unimplemented!() } }
 """)
+    # compound assignment (binary_pow)
+    o.append("""
+impl<'b> vstd::std_specs::ops::MulAssignSpecImpl<&'b Integer> for Integer {
+    open spec fn obeys_mul_assign_spec() -> bool { false }
+    open spec fn mul_assign_req(&self, rhs: &'b Integer) -> bool { true }
+    open spec fn mul_assign_spec(&self, rhs: &'b Integer) -> &Integer { self }
+}
+impl<'b> core::ops::MulAssign<&'b Integer> for Integer {
+    #[verifier::external_body]
+    fn mul_assign(&mut self, rhs: &'b Integer) ensures final(self).v() == old(self).v() * rhs.v() { unimplemented!() }
+}
+impl vstd::std_specs::ops::ShrAssignSpecImpl<usize> for Integer {
+    open spec fn obeys_shr_assign_spec() -> bool { false }
+    open spec fn shr_assign_req(&self, rhs: usize) -> bool { true }
+    open spec fn shr_assign_spec(&self, rhs: usize) -> &Integer { self }
+}
+impl core::ops::ShrAssign<usize> for Integer {
+    #[verifier::external_body]
+    fn shr_assign(&mut self, rhs: usize) ensures final(self).v() == shr_int(old(self).v(), rhs as nat) { unimplemented!() }
+}
+""")
     # rationals
     # (a second, by-value impl is required next to each by-reference impl: with a single candidate
     #  impl this Verus build dies in codegen_select_candidate)
